@@ -111,6 +111,13 @@ def level_of(version, item):
     return None
 
 
+def level_index(version, name):
+    for i, (n, _k, _s) in enumerate(_LEVELS[version]):
+        if n == name:
+            return i
+    return -1
+
+
 class SyntaxErr(Exception):
     def __init__(self, reason):
         Exception.__init__(self, reason)
@@ -170,6 +177,11 @@ class _P:
                     ty = t[2].strip()
                     if n is not None and n[0] == 'b' and n[1] in ('*', '+') and \
                             ty[-1] not in '*+?' and not ty.startswith('empty-sequence'):
+                        nn = self.items[self.i + 1] if self.i + 1 < len(self.items) else None
+                        if nn is not None and nn[0] == 'u':
+                            # "T + - x": '+' is the occurrence indicator and the sign becomes the binary
+                            # operator; the item list cannot express that reading
+                            raise SyntaxErr('undecided:occurrence-indicator-then-sign')
                         raise SyntaxErr('occurrence-indicator')
             return x
         if kind == 'arrow':
@@ -254,6 +266,12 @@ def parse(version, items):
     if t is not None:
         if t[0] in ('a', 'p'):
             raise SyntaxErr('unconsumed:operand')
+        prev = items[p.i - 1] if p.i > 0 else None
+        if prev is not None and prev[0] == 't' and \
+                level_index(version, level_of(version, t)) >= level_index(version, level_of(version, prev)):
+            # InstanceofExpr ::= TreatExpr ("instance" "of" SequenceType)? etc.: nothing of the same or a
+            # tighter level can follow the type
+            raise SyntaxErr('tighter-operator-after-type-operator')
         raise SyntaxErr('unconsumed:' + str(level_of(version, t)))
     return ast
 
